@@ -379,6 +379,23 @@ func dropBackgroundCtxParams(pkgs []*packages.Package, base map[string][]byte) *
 			})
 		}
 	}
+	// a file that only mentioned the package in a dropped argument still imports it
+	ctxName := map[string]string{}
+	for _, p := range jiva {
+		for _, f := range p.Syntax {
+			for _, im := range f.Imports {
+				if im.Path.Value == `"context"` {
+					n := "context"
+					if im.Name != nil {
+						n = im.Name.Name
+					}
+					if n != "_" && n != "." {
+						ctxName[p.Fset.Position(f.Pos()).Filename] = n
+					}
+				}
+			}
+		}
+	}
 	sort.Strings(names)
 	res.Count = len(names)
 	res.Notes = append(res.Notes, "context.Context parameter(s) that are context.Background() at every root turned back into locals, arguments dropped at the call sites: "+strings.Join(names, ", "))
@@ -404,6 +421,9 @@ func dropBackgroundCtxParams(pkgs []*packages.Package, base map[string][]byte) *
 		for i := len(keep) - 1; i >= 0; i-- {
 			e := keep[i]
 			out = append(out[:e.start], append([]byte(e.text), out[e.end:]...)...)
+		}
+		if n := ctxName[file]; n != "" {
+			out = append(out, []byte("\nvar _ = "+n+".Background\n")...)
 		}
 		res.Overlay[file] = out
 	}
